@@ -1521,8 +1521,19 @@ func (c *converter) convertMap(schema core.ZodSchema) (*lib.Schema, error) {
 		return nil, err
 	}
 
+	// Parse runs every key through the key schema: a key schema with checks constrains the
+	// property names (a bare String() says nothing the JSON object does not say already).
+	var propertyNames *lib.Schema
+	if len(keySchema.Internals().Checks) > 0 {
+		propertyNames, err = c.convert(keySchema)
+		if err != nil {
+			return nil, err
+		}
+	}
+
 	return &lib.Schema{
 		Type:                 []string{"object"},
+		PropertyNames:        propertyNames,
 		AdditionalProperties: additionalProps,
 	}, nil
 }
